@@ -35,7 +35,7 @@ CHECKS = {
                      "Transport's Sink and ~1400 partitions of a five-frame stream through its Stream; FramingTrace.tla decodes each performative with the "
                      "reference decoder and evaluates the same clauses on what the code wrote / read.",
                 note="trusted: harness frame-header parser, performative extent finder and payload pattern; Transport is driven through its public bind / set_*_max_frame_size API"),
-    "C07": dict(technique="TLC model check of session flow control in serial arithmetic modulo 8 (SessionWin.tla, safety + leads-to) incl. the negative check of the code's deviation; TLC-enumerated send / flow / incoming-transfer scripts (SessGen.tla) executed lock-step against the real client for id spaces at 0, 2^31 and just below 2^32; traces validated by the TLA+ observer",
+    "C07": dict(technique="TLC model check of session flow control in serial arithmetic modulo 8 (SessionWin.tla, safety + leads-to) incl. the negative check of the code's deviation; TLC-enumerated send / flow / incoming-transfer scripts (SessGen.tla) executed lock-step against the real client for id spaces at 0, 2^31 and just below 2^32; traces validated by the TLA+ observer; plus long mixed histories sampled by TLC's simulation mode from a state-aware generator (MixGen.tla), executed and validated the same way",
                 design="4/C07",
                 text="MC: window safety w.r.t. the last processed flow, FIFO, no loss / duplication, accounting and drain (held frames leave once the window is known "
                      "open) for every interleaving of submit / emit / peer flow (any window 0..2, any reached next-incoming-id) and ids wrapping mod M. "
@@ -43,7 +43,7 @@ CHECKS = {
                      "C07_Fifo, C07_Accounting_Out/In per frame and C07_Drain at every quiescence point, in the strict (per-frame) reading and against the named "
                      "deviation model of the open finding.",
                 note="trusted: lock-step quiescence (a transfer that is not on the wire at Quiesce is held back); payload-to-message matching in the harness"),
-    "C08": dict(technique="TLC model checks: link-credit accounting in serial arithmetic (Credit.tla) and the implementation-shaped wait/notify race (CreditWake.tla, positive and negative variant); TLC-enumerated grant / drain / echo / send scripts (CreditGen.tla) executed lock-step, including scripts that park the sender at the cfg schedule point credit.after_failed_check while the grant is applied; traces validated by the TLA+ observer",
+    "C08": dict(technique="TLC model checks: link-credit accounting in serial arithmetic (Credit.tla) and the implementation-shaped wait/notify race (CreditWake.tla, positive and negative variant); TLC-enumerated grant / drain / echo / send scripts (CreditGen.tla) executed lock-step, including scripts that park the sender at the cfg schedule point credit.after_failed_check while the grant is applied; traces validated by the TLA+ observer; plus long mixed histories sampled by TLC's simulation mode from a state-aware generator (MixGen.tla), executed and validated the same way",
                 design="4/C08",
                 text="MC: deliveries started never exceed the limit of the last processed flow, drain is answered, for all flow histories with wrapping counts; the wait for "
                      "credit always wakes when the future is created before the check and TLC refutes the check-then-create order (the run fails as a tool error if that "
@@ -51,14 +51,14 @@ CHECKS = {
                      "replaying the dangerous interleaving against the real Consumer/Producer; C08_WithinCredit, C08_OnePerDelivery per frame, C08_Drain_Q / C08_Echo_Q / "
                      "C08_Wake at every quiescence point.",
                 note="trusted: the schedule-point facade (fe2o3-amqp/src/verif.rs, add-only, cfg-guarded); lock-step quiescence"),
-    "C09": dict(technique="TLC model check of link-credit arithmetic (Credit.tla); TLC-enumerated transfer / recv / dispose / set_credit / drain scripts (RecvGen.tla) against real client- and listener-attached receivers; traces validated by the TLA+ observer",
+    "C09": dict(technique="TLC model check of link-credit arithmetic (Credit.tla); TLC-enumerated transfer / recv / dispose / set_credit / drain scripts (RecvGen.tla) against real client- and listener-attached receivers; traces validated by the TLA+ observer; plus long mixed histories sampled by TLC's simulation mode from a state-aware generator (MixGen.tla), executed and validated the same way",
                 design="4/C09",
                 text="Conformance: depth-3 (thorough 4) scripts over a 10-event alphabet for Auto(1), Auto(2)+auto-accept with the sender's delivery-count next to 2^32, Manual and a "
                      "listener-accepted link. Clauses: C09_FlowCount (reported delivery-count between deliveries handed over and deliveries arrived, from the sender's stated "
                      "count), C09_FlowCredit (set_credit(n) is announced as n), C09_FlowCreditAuto, C09_Enforced (deliveries handed to the application never outnumber the largest "
                      "limit announced), C09_Replenished_Q (Auto: with nothing held or queued the sender has credit left at every quiescence point).",
                 note="weaker readings chosen where the text is ambiguous (see DESIGN.md 7): arrivals are counted when the link endpoint takes them in; enforcement is by count"),
-    "C10": dict(technique="TLC model check of reassembly with omitted / repeated / contradictory continuation fields, aborts and a second interleaved link (Reasm.tla); TLC-generated fragmentations (RecvGen.tla, FragGen.tla: every 2-frame split offset, grid of 3-frame splits) replayed against the real receiver; traces validated by the TLA+ observer",
+    "C10": dict(technique="TLC model check of reassembly with omitted / repeated / contradictory continuation fields, aborts and a second interleaved link (Reasm.tla); TLC-generated fragmentations (RecvGen.tla, FragGen.tla: every 2-frame split offset, grid of 3-frame splits) replayed against the real receiver; traces validated by the TLA+ observer; plus long mixed histories sampled by TLC's simulation mode from a state-aware generator (MixGen.tla), executed and validated the same way",
                 design="4/C10",
                 text="MC: a delivery is produced exactly when its last frame arrives and equals the concatenation; abort produces nothing; a contradiction puts the link in error. "
                      "Conformance: C10_Exact (message identity, full byte equality of the re-encoded message, slices contiguous and complete), C10_NotBefore, C10_Abort, "
@@ -68,23 +68,23 @@ CHECKS = {
                 design="4/C01",
                 text="MC: for 3-4 messages of 1-3 frames, windows 1-2, Auto(1-2), FIFO capacities 1-2, what recv has returned is always a prefix of what was submitted and eventually everything "
                      "arrives; TLC refutes the variant that lets the current transfer overtake buffered ones. Conformance: every configuration differing from the base in at most 2 (thorough 3) of "
-                     "18 parameters incl. 1-3 concurrent links on 1-2 sessions (640 / 7520 runs): C01_Order, C01_Once, C01_NotBeforeSent, C01_Routing, C01_Intact (byte-for-byte re-encoding incl. all sections) on every recv per link, C01_Delivers (nothing "
+                     "19 parameters incl. 1-3 concurrent links on 1-2 sessions, a link max-message-size and manual credit re-granted over queued deliveries (784 runs in the quick tier): C01_Order, C01_Once, C01_NotBeforeSent, C01_Routing, C01_Intact (byte-for-byte re-encoding incl. all sections) on every recv per link, C01_Delivers (nothing "
                      "stalls or is lost) and C01_Outcome (every send reports accepted exactly once) at the end.",
                 note="schedules are sampled (chunk patterns, capacities, randomised select, multi-threaded runs in thorough), not enumerated; the capacity of the in-memory transport is not varied (DESIGN.md)"),
-    "C02": dict(technique="TLC model check of sender-side settlement under arbitrary disposition histories (Settle.tla, safety + echo liveness); TLC-enumerated disposition / batchable-send / await scripts over two links (SettleGen.tla) and receiver-side disposal scripts (RecvGen.tla) executed lock-step; traces validated by the TLA+ observer",
+    "C02": dict(technique="TLC model check of sender-side settlement under arbitrary disposition histories (Settle.tla, safety + echo liveness); TLC-enumerated disposition / batchable-send / await scripts over two links (SettleGen.tla) and receiver-side disposal scripts (RecvGen.tla) executed lock-step; traces validated by the TLA+ observer; plus long mixed histories sampled by TLC's simulation mode from a state-aware generator (MixGen.tla), executed and validated the same way",
                 design="4/C02",
                 text="MC: every send resolves at most once, with the first terminal state reported for its own delivery-id (pre-settled: accepted at once); settled deliveries leave the "
                      "unsettled map; in mode second every terminal unsettled disposition is eventually echoed. Conformance: C02_OwnOutcome on every send / await result, "
                      "C02_Echo_Q at quiescence, C02_NoEchoForUnknown / C02_EchoSettles on the EUT's sender-role dispositions, C02_RangeExact / C02_OwnState on its receiver-role "
                      "dispositions (ranges cover exactly deliveries the application disposed that way; unsettled in mode second).",
                 note="the 'neither side retains the delivery' clause is checked on the model only (no accessor for the unsettled maps is used yet)"),
-    "C11": dict(technique="TLC model check of handle allocation / release and serial delivery-ids (Ids.tla); lifecycle, link-split and receive scripts (LifeGen, SessGen, RecvGen) executed lock-step; traces validated by the TLA+ observer",
+    "C11": dict(technique="TLC model check of handle allocation / release and serial delivery-ids (Ids.tla); lifecycle, link-split and receive scripts (LifeGen, SessGen, RecvGen) executed lock-step; traces validated by the TLA+ observer; plus long mixed histories sampled by TLC's simulation mode from a state-aware generator (MixGen.tla), executed and validated the same way",
                 design="4/C11",
                 text="MC: smallest-free allocation with release at the endpoint's own detach keeps handles unique, names attached once, frames only on held handles, delivery-ids "
                      "serially increasing across wrap-around and continuation ids equal to the delivery's. Conformance: C11_ChannelUnique, C11_HandleUnique, C11_NameOnce, "
                      "C11_DeliveryIdIncreasing, C11_ContinuationId on every EUT frame, C11_Routing on every recv result, with sparse peer handles (70000+) and re-attach after detach.",
                 note="peer-chosen channel / handle numbers come from the script constants, not from an exhaustive range"),
-    "C13": dict(technique="TLC model check of the session / link handshake state machines against an arbitrary peer and application (LinkLife.tla, safety + end-reply liveness); TLC-enumerated lifecycle macro-event scripts (LifeGen.tla) executed lock-step; traces validated by the TLA+ observer",
+    "C13": dict(technique="TLC model check of the session / link handshake state machines against an arbitrary peer and application (LinkLife.tla, safety + end-reply liveness); TLC-enumerated lifecycle macro-event scripts (LifeGen.tla) executed lock-step; traces validated by the TLA+ observer; plus long mixed histories sampled by TLC's simulation mode from a state-aware generator (MixGen.tla), executed and validated the same way",
                 design="4/C13",
                 text="MC: one end at most and nothing after it, detaches never outnumber attaches, attach only when detached, peer end ~> end. Conformance: C13_EndAtMostOnce, "
                      "C13_NothingAfterEnd, C13_NothingAfterDetach, C13_DetachAtMostOncePerAttach, C13_DetachInKind per frame; C13_EndReply_Q, C13_DetachReply_Q at quiescence; "
@@ -106,12 +106,12 @@ CHECKS = {
                 note="cut points are frame / step boundaries plus one partial frame, not every byte offset; error scopes are recognised from the error's Debug rendering"),
     "C15": dict(technique="TLC-enumerated catalogue x state x side scripts (HostileGen.tla) executed lock-step under panic / spin / CPU / allocation monitors; traces validated by the TLA+ observer, whose legality classification of peer frames decides what must be answered by a shutdown",
                 design="4/C15",
-                text="35 hostile events (malformed frame headers and bodies, protocol violations) x 6 endpoint states x client / listener = 420 scripts, each followed by a probe. Clauses: "
+                text="35 hostile events (malformed frame headers and bodies, protocol violations) x 6 endpoint states x client / listener, plus 5 floods of 400 - 4 800 legal frames against single-slot internal channels (each three times) = 482 scripts, each followed by a probe. Clauses: "
                      "C15_NoPanic (panic hook count, per quiescence point), C15_Quiesces (a settle that never returns = spin, watchdog), C15_Cpu (<= 2 s thread CPU per step), C15_Alloc "
                      "(<= 64 MiB peak growth per step), C15_IllegalHandled (a frame the observer classifies as illegal is answered by a close / end / detach carrying an error or by "
                      "tearing the transport down), C15_NoHang (no probe call is left pending at the end).",
                 note="model check: the connection state machine (ConnLife.tla) shows that closing on an illegal frame is compatible with C12; 'other connections unaffected' is not exercised yet"),
-    "C16": dict(technique="TLC model check of recv / send as program-counter machines with a Cancel action at every await (Cancel.tla, incl. the refuted buffer-in-future variant); TLC-enumerated cancellation scripts (CancelGen.tla) executed lock-step with capacity-1 channels and a tiny transport pipe so that sends suspend at internal awaits; traces validated by the TLA+ observer",
+    "C16": dict(technique="TLC model check of recv / send as program-counter machines with a Cancel action at every await (Cancel.tla, incl. the refuted buffer-in-future variant); TLC-enumerated cancellation scripts (CancelGen.tla) executed lock-step with capacity-1 channels and a tiny transport pipe so that sends suspend at internal awaits; traces validated by the TLA+ observer; plus long mixed histories sampled by TLC's simulation mode from a state-aware generator (MixGen.tla), executed and validated the same way",
                 design="4/C16",
                 text="MC: with the reassembly buffer owned by the link, completed recvs return exactly the deliveries sent whatever is cancelled; enqueued transfers are unique and ordered. "
                      "Conformance: recv side depth 4 (thorough 5-6) over {recv, cancel, 1-frame, 2-frame halves}, send side depth 3 (4) over 10 events incl. sends cancelled after 30 scheduler "
